@@ -91,6 +91,9 @@ func stringAxioms(roots []*Term) []*Term {
 			if t.op == "str$empty" {
 				lits[t.op] = t
 			}
+			if t.op == "cat2" {
+				lits["str$empty"] = strEmpty()
+			}
 		}
 		for _, a := range t.args {
 			visit(a)
@@ -113,6 +116,9 @@ func stringAxioms(roots []*Term) []*Term {
 		a, b := BVar("a", SStr), BVar("b", SStr)
 		cat := App("cat2", SStr, a, b)
 		out = append(out, Forall([]*Term{a, b}, Eq(App("strlen", SInt, cat), Add(App("strlen", SInt, a), App("strlen", SInt, b))), []*Term{cat}))
+		// the empty string is the unit of concatenation
+		out = append(out, Forall([]*Term{a}, Eq(App("cat2", SStr, strEmpty(), a), a), []*Term{App("cat2", SStr, strEmpty(), a)}))
+		out = append(out, Forall([]*Term{a}, Eq(App("cat2", SStr, a, strEmpty()), a), []*Term{App("cat2", SStr, a, strEmpty())}))
 	}
 	var names []string
 	for n := range lits {
